@@ -5247,6 +5247,9 @@ class PyCdlib:
 
         # Make sure the directory can be removed from every one of the given
         # contexts before it is removed from any of them.
+        if joliet_path is not None and self.joliet_vd is None:
+            raise pycdlibexception.PyCdlibInvalidInput('A Joliet path can only be specified for a Joliet ISO')
+
         if iso_path is not None and joliet_path is not None and self.joliet_vd is not None:
             joliet_child = self._find_joliet_record(self._normalize_joliet_path(joliet_path))
             if not joliet_child.is_dir():
